@@ -299,9 +299,83 @@ func stalled(c *vk.Ctx, role rig.Role, closeTO time.Duration, idx int) {
 	}
 }
 
+// connLossBehindLogout: the peer's Logout is already received (queued behind a message the application is still
+// working on) when the loss of the connection is reported to the handler. Whichever of the two the handler loop takes
+// first, the Logout was received and has to be processed: the session is no longer logged on, and a session that had
+// sent the Logout itself signals the logout event.
+func connLossBehindLogout(c *vk.Ctx, role rig.Role, variant string, trial int) {
+	desc := fmt.Sprintf("%s %s: peer Logout queued behind a slow application handler, connection loss reported right behind it (trial %d)", role, variant, trial)
+	replay := map[string]interface{}{"scenario": desc, "seed": c.Seed}
+	var appLogout int32
+	release := make(chan struct{})
+	entered := make(chan struct{}, 1)
+	r, err := rig.NewStepRig(rig.StepCfg{Role: role, HeartBtInt: 30, Limits: &session.IntLimits{Min: 5, Max: 60}, CloseTimeout: 5 * time.Second, BufferSize: 4, SentinelBarrier: true,
+		AfterRun: func(h *simplefixgo.DefaultHandler, s *session.Session) {
+			s.OnChangeState(utils.EventLogout, func() bool { atomic.AddInt32(&appLogout, 1); return true })
+			h.HandleIncoming("V", func([]byte) bool {
+				select {
+				case entered <- struct{}{}:
+				default:
+				}
+				<-release
+				return true
+			})
+		}})
+	if err != nil {
+		c.Inconclusive("rig: " + err.Error())
+		return
+	}
+	defer r.Close()
+	p := rig.NewPeer()
+	r.Inbound(p.Logon(30, "0"))
+	for w := 0; !r.S.IsLogged(); w++ {
+		if w > 2000 {
+			c.Inconclusive("no logon: " + desc)
+			close(release)
+			return
+		}
+		time.Sleep(time.Millisecond)
+	}
+	time.Sleep(10 * time.Millisecond)
+	if variant == "own-logout" {
+		go func() { _ = r.S.Logout() }()
+		time.Sleep(10 * time.Millisecond)
+	}
+	go r.H.ServeIncoming(p.App("slow"))
+	select {
+	case <-entered:
+	case <-time.After(2 * time.Second):
+		c.Inconclusive("application handler not reached: " + desc)
+		close(release)
+		return
+	}
+	r.H.ServeIncoming(p.Logout()) // queued: the loop is inside the application handler
+	go r.H.StopWithError(simplefixgo.ErrConnClosed)
+	time.Sleep(5 * time.Millisecond)
+	close(release)
+	// the loop ends once it has taken the error
+	deadline := time.Now().Add(2 * time.Second)
+	for time.Now().Before(deadline) {
+		if r.S.Context().Err() != nil || !r.S.IsLogged() {
+			break
+		}
+		time.Sleep(time.Millisecond)
+	}
+	time.Sleep(30 * time.Millisecond)
+	c.Eval(vk.Hash64([]byte(desc)), true)
+	c.Count("connection_loss_behind_a_queued_logout", 1)
+	if variant == "own-logout" {
+		if atomic.LoadInt32(&appLogout) == 0 {
+			c.Violate("C15/logout-event-not-signalled-to-application/answer-received-before-connection-loss/"+role.String(), desc+": the peer's answer to the session's own Logout had been received, the logout event was not signalled", replay)
+		}
+	} else if r.S.IsLogged() {
+		c.Violate("C15/still-logged-after-peer-logout/connection-loss-right-behind-it/"+role.String(), desc+": IsLogged is still true although the peer's Logout had been received", replay)
+	}
+}
+
 func main() {
 	c := vk.Init("C15")
-	c.Rule("scenarios: role x variant {peer Logout while logged on (then a repeated one); local Logout() then the peer's answer after 0..3 other inbound messages; Stop() answered immediately / after other inbound messages; Stop() never answered; Stop() while the outgoing path is stalled (full handler buffer nobody reads: the Logout cannot even leave) with close timeout {0,50ms,300ms,1s}; Stop()/Logout() issued while the session's own TestRequest is pending (N=1, 2.3 s of silence)} x close timeout {2s,5s} for answered and {0,50ms,300ms,2s} for unanswered x 0..3 messages before x application EventLogout handler registered before the action or not. Oracle: Logout count on Outgoing() per step, IsLogged, EventLogout, and Context().Done(): within 250 ms (+3x measured scheduler jitter) after the answer's step completed — an order of magnitude below the deadline so the deadline path cannot pass for the answer path — resp. no later than closeTimeout + 300 ms (+jitter) when unanswered. distinct = scenario tuple; non-trivial = all but those where the deadline beat the scripted answer")
+	c.Rule("scenarios: role x variant {peer Logout while logged on (then a repeated one); local Logout() then the peer's answer after 0..3 other inbound messages; Stop() answered immediately / after other inbound messages; Stop() never answered; a peer Logout (or answer to the session's own Logout) that is queued behind a slow application handler when the loss of the connection is reported (8/40 trials per role and variant: the handler loop may take either first); Stop() while the outgoing path is stalled (full handler buffer nobody reads: the Logout cannot even leave) with close timeout {0,50ms,300ms,1s}; Stop()/Logout() issued while the session's own TestRequest is pending (N=1, 2.3 s of silence)} x close timeout {2s,5s} for answered and {0,50ms,300ms,2s} for unanswered x 0..3 messages before x application EventLogout handler registered before the action or not. Oracle: Logout count on Outgoing() per step, IsLogged, EventLogout, and Context().Done(): within 250 ms (+3x measured scheduler jitter) after the answer's step completed — an order of magnitude below the deadline so the deadline path cannot pass for the answer path — resp. no later than closeTimeout + 300 ms (+jitter) when unanswered. distinct = scenario tuple; non-trivial = all but those where the deadline beat the scripted answer")
 	c.Assume("wall clock is used only for the two bounds the statement itself gives (as soon as the answer arrives / at the latest at the close timeout); a jitter canary turns overloaded runs into inconclusive")
 	stop := make(chan struct{})
 	go canary(stop)
@@ -344,6 +418,17 @@ func main() {
 				defer wg.Done()
 				stalled(c, role, to, 100000+i)
 			}(i, role, to)
+		}
+	}
+	for trial := 0; trial < c.Pick(8, 40); trial++ {
+		for _, role := range []rig.Role{rig.Acceptor, rig.Initiator} {
+			for _, variant := range []string{"peer-logout", "own-logout"} {
+				wg.Add(1)
+				go func(trial int, role rig.Role, variant string) {
+					defer wg.Done()
+					connLossBehindLogout(c, role, variant, trial)
+				}(trial, role, variant)
+			}
 		}
 	}
 	wg.Wait()
